@@ -161,7 +161,7 @@ def run_check(prop, tier, base_seed, jobs=None, budget_s=None, runs=None, quiet=
     finals = {}
     sim_s = 0.0
     for r in results:
-        for k, v in r["stats"].items():
+        for k, v in (r.get("stats") or {}).items():
             agg[k] = agg.get(k, 0) + v
         sim_s += r.get("sim_s") or 0.0
         for s in r.get("states") or []:
